@@ -232,6 +232,20 @@ fn op_line(h: &Hist) -> String {
     s
 }
 
+/// Longitudes are printed modulo 360, in [-180, 180), with C04's seam rule (a value within 1e-9 below 180 is
+/// printed as lon - 360).  The property compares longitudes modulo 360: the globally decoded longitude can
+/// land one ulp below an exact 180 in f64 (exact arithmetic gives -180), and every later position decoded
+/// against that fix follows its turn.  The model driver applies the same canonicalisation; the oracle and
+/// the batch-vs-loop / interference comparisons judge the raw values.
+fn canon_lon(x: f64) -> f64 {
+    let y = x - 360.0 * ((x + 180.0) / 360.0).floor();
+    if y > 180.0 - 1e-9 {
+        y - 360.0
+    } else {
+        y
+    }
+}
+
 fn show_outs(o: &Option<Outs>) -> String {
     match o {
         None => "panic".into(),
@@ -240,7 +254,7 @@ fn show_outs(o: &Option<Outs>) -> String {
             for x in v {
                 match x {
                     None => s += " -",
-                    Some((la, lo)) => s += &format!(" {la:.15},{lo:.15}"),
+                    Some((la, lo)) => s += &format!(" {la:.15},{:.15}", canon_lon(*lo)),
                 }
             }
             s
@@ -768,13 +782,58 @@ fn gen_stretch(rng: &mut Rng, tab: &[(i128, u32)]) -> Hist {
     for _ in 0..n {
         reps.push(f.report(tab, t, p));
         p ^= 1;
-        t += match rng.below(4) {
+        t += match rng.below(6) {
             0 => 10 * TICKS - 1,
             1 => 10 * TICKS,
             2 => 10 * TICKS + 1,
+            3 => rng.range(10 * TICKS, 40 * TICKS), // never paired by the code under test: the aircraft moves up to 14 km
             _ => 10 * TICKS - rng.range(1, 400),
         };
     }
+    Hist { upd: false, reference: None, reps }
+}
+
+/// an airborne gap that lands on a CPR alias: a burst (which yields a fix), silence while the aircraft flies
+/// one airborne zone — 6 deg (even) or 360/59 deg (odd) of latitude along a meridian, or one longitude zone
+/// along the equator — give or take 0.44 deg, then another burst.  A decoder that still trusted the old fix
+/// would place the first report of the second burst within 50 km of it.  (At 700 kt one zone takes 1851 s.)
+fn gen_air_alias(rng: &mut Rng, tab: &[(i128, u32)]) -> Hist {
+    let base = base_ticks(rng);
+    let addr = random_addr(rng, &[]);
+    let kt = 600.0 + rng.f64() * 100.0;
+    let along_meridian = rng.chance(3, 4);
+    let (start, brg) = if along_meridian {
+        ((rng.f64() * 120.0 - 60.0, deg(random_lon(rng))), *rng.pick(&[0.0, 180.0]))
+    } else {
+        ((0.0, deg(random_lon(rng))), *rng.pick(&[90.0, 270.0]))
+    };
+    let t0 = base as f64 / TICKS as f64;
+    let f = Flight { addr, legs: vec![leg_from(t0, start, brg, kt, false, false)], df18: false };
+    let n1 = 3 + rng.below(5) as usize;
+    let mut ts = vec![];
+    let mut t = base;
+    for _ in 0..n1 {
+        ts.push(t);
+        t += rng.range(TICKS * 2 / 5, TICKS * 3 / 5);
+    }
+    let q = rng.below(2) as u32; // parity of the first report after the gap
+    let zone = if along_meridian {
+        360.0 / (60.0 - q as f64)
+    } else {
+        360.0 / (59.0 - q as f64) // NL = 59 on the equator
+    };
+    let arc = zone * (1 + rng.below(2)) as f64 + (rng.f64() - 0.5) * 0.88;
+    let gap = (arc / (kt * KT_DEG_PER_S) * TICKS as f64) as i64;
+    let t_last = *ts.last().unwrap();
+    let mut t = t_last + gap;
+    let n2 = 3 + rng.below(6) as usize;
+    for _ in 0..n2 {
+        ts.push(t);
+        t += rng.range(TICKS * 2 / 5, TICKS * 3 / 5);
+    }
+    let mut ps = parities(rng, ts.len());
+    ps[n1] = q;
+    let reps: Vec<Rep> = ts.iter().zip(&ps).map(|(t, p)| f.report(tab, *t, *p)).collect();
     Hist { upd: false, reference: None, reps }
 }
 
@@ -965,7 +1024,7 @@ fn gen_mixed(rng: &mut Rng, tab: &[(i128, u32)], thorough: bool) -> Hist {
 
 pub fn run(out: &mut Out, rng: &mut Rng, thorough: bool) {
     let tab = nl_table();
-    let scale = if thorough { 10 } else { 1 };
+    let scale = if thorough { 30 } else { 3 };
     for _ in 0..700 * scale {
         let h = gen_cruise(rng, &tab, thorough);
         do_hist(out, rng, &tab, &h, "cruise");
@@ -973,6 +1032,10 @@ pub fn run(out: &mut Out, rng: &mut Rng, thorough: bool) {
     for _ in 0..150 * scale {
         let h = gen_stretch(rng, &tab);
         do_hist(out, rng, &tab, &h, "stretch");
+    }
+    for _ in 0..300 * scale {
+        let h = gen_air_alias(rng, &tab);
+        do_hist(out, rng, &tab, &h, "air-alias");
     }
     for _ in 0..500 * scale {
         let h = gen_arrival(rng, &tab, false, false, thorough);
